@@ -130,34 +130,17 @@ func (g *gauge) value() float64 {
 
 // unreported returns the gauge's value if an Update has completed since the
 // value delivered last. It waits for an Update that is in the middle of storing
-// its value, so that one update is never taken twice (once through its value,
-// once through its completion) and a completed update is never skipped.
+// its value (a matter of two instructions on the other side), so that one
+// update is never taken twice - once through its value, once through its
+// completion - and a completed update is never skipped.
 func (g *gauge) unreported() (float64, bool) {
-	const maxSpins = 16
-
-	for spins := 0; ; spins++ {
-		var (
-			seq      = atomic.LoadUint64(&g.seq)
-			reported = atomic.LoadUint64(&g.reported)
-		)
-
-		if spins == maxSpins {
-			// n.b. Updates keep arriving: deliver what is there now. The
-			//      update in flight overlaps this delivery and is taken, as
-			//      a new one, by the next report.
-			seq &^= 1
-			if seq == reported {
-				return 0, false
-			}
-			atomic.StoreUint64(&g.reported, seq)
-			return g.value(), true
-		}
-
+	for {
+		seq := atomic.LoadUint64(&g.seq)
 		if seq&1 == 1 {
 			runtime.Gosched()
 			continue
 		}
-		if seq == reported {
+		if seq == atomic.LoadUint64(&g.reported) {
 			return 0, false
 		}
 
